@@ -462,6 +462,20 @@ def c08(ctx, res):
         cases.append(("dest_is_directory", e["source"], e["stack"], "adir", True, img))
         cases.append(("readonly_dir", e["source"], e["stack"], "ro/out.lc3", False, img))
 
+    # destination *names*: nothing in the property depends on how the path is spelt. '\udcff' is how
+    # Python spells the byte 0xFF in a file name (surrogateescape): a name that is not valid UTF-8.
+    names = [("name_spaces", "my out file.lc3"), ("name_no_extension", "out"), ("name_unicode", "caf\u00e9 \u20ac.lc3"),
+             ("name_not_utf8", "out\udcff\udcfe.lc3"), ("name_long_ascii", "o" * 200 + ".lc3"),
+             ("name_long_2byte", "\u00e9" * 40 + ".lc3"), ("name_long_2byte_odd", "a" + "\u00e9" * 40 + ".lc3"),
+             ("name_long_3byte", "\u20ac" * 30 + ".lc3"), ("name_long_3byte_b", "ab" + "\u20ac" * 30 + ".lc3"),
+             ("name_long_4byte", "\U0001F34B" * 20 + ".lc3"), ("name_long_4byte_b", "abc" + "\U0001F34B" * 20 + ".lc3"),
+             ("name_long_mixed", "x\u00e9\u20ac\U0001F34B" * 9 + ".lc3")]
+    for ni, (kind, name) in enumerate(names):
+        e = good[ni % len(good)]
+        img = b"".join(int(w).to_bytes(2, "big") for w in e["image"])
+        for pre in (True, False):
+            cases.append((kind, e["source"], e["stack"], name, pre, img))
+
     def one(ix):
         kind, src, stack, dest, pre, img = cases[ix]
         cd = os.path.join(d, "c%d" % ix)
@@ -491,6 +505,7 @@ def c08(ctx, res):
         k0 = kind.split("@")[0]
         res.cls("fault:" + k0)
         res.cls("dest:" + ("pre-existing" if pre else "absent"))
+        dest = repr(os.fsencode(dest))[2:-1] if kind.startswith("name_") else dest
         detail = dict(r.brief(), source=src[-600:], fault=kind, destination=dest, destination_pre_existing=pre,
                       before=_snap_brief(before), after=_snap_brief(after))
         if r.rc is None or r.crashed:
@@ -514,7 +529,8 @@ def c08(ctx, res):
     # ---- strace: injected write errors on the k-th write of a successful compile
     c08_inject(ctx, res, good[:1 if not ctx.thorough() else 6], d)
     floors = ["fault:emit_fail", "fault:ok", "fault:ok_top_of_memory", "fault:dev_full", "fault:missing_parent", "fault:dest_is_directory",
-              "dest:pre-existing", "dest:absent", "success_complete", "failure_destination_untouched"]
+              "dest:pre-existing", "dest:absent", "success_complete", "failure_destination_untouched",
+              "fault:name_not_utf8", "fault:name_long_2byte", "fault:name_long_3byte", "fault:name_long_4byte", "fault:name_long_ascii"]
     res.require(floors, "L2")
     return res
 
